@@ -10,6 +10,7 @@
 //	vh hostname seq   -universe u.json -scripts s.ndjson -out trace.ndjson     deterministic, one caller
 //	vh hostname conc  -universe u.json -programs p.ndjson -out trace.ndjson    free-running callers
 //	vh hostname probe -universe u.json                                          configuration-case probe
+//	vh hostname use   -universe u.json -scripts s.ndjson -out trace.ndjson     the callers' protocol on the real cluster service
 package hostnameh
 
 import (
@@ -122,6 +123,8 @@ func Main(args []string) int {
 		return mainConc(args[1:])
 	case "probe":
 		return mainProbe(args[1:])
+	case "use":
+		return mainUse(args[1:])
 	}
 	fmt.Fprintln(os.Stderr, "unknown mode", args[0])
 	return 2
